@@ -159,11 +159,29 @@ def check(ctx: Ctx) -> list[RuleResult]:
             r2.ok(None)
     r2.samples = [{"functions_on_decode_path": len(reach), "named_exception": "dt.fromtimestamp (process-constant local timezone)"}]
     # lru_cache only on functions free of the above
+    # a memoised function hands the *same object* to every later decode: it must not return a mutable container (the decode path
+    # annotates results in place, e.g. parse_payload's result["seqx_num"] = ...), else one packet's payload leaks into another's
+    IMMUTABLE = {"I:builtins.str", "I:builtins.int", "I:builtins.float", "I:builtins.bool", "None", "I:builtins.tuple", "I:builtins.bytes", "I:builtins.frozenset", "I:re.Match", "I:ramses_tx.address.Address"}
+    n_cached = 0
     for f in reach:
-        if any("lru_cache" in d for d in f.decorators):
+        if any("lru_cache" in d or d in ("cache", "functools.cache", "cached_property") for d in f.decorators):
+            n_cached += 1
             r2.instances += 1
             r2.nontrivial += 1
-            r2.ok({"lru_cache_on": f.short})
+            bad = []
+            for n in own_nodes(f.node):
+                if isinstance(n, ast.Return) and n.value is not None:
+                    v = n.value
+                    at = set(ctx.cg.atoms(f, v) or ("Any",))
+                    if isinstance(v, (ast.Dict, ast.List, ast.Set, ast.DictComp, ast.ListComp, ast.SetComp)) or (at - IMMUTABLE - {"Any"} and any(a in ("I:builtins.dict", "I:builtins.list", "I:builtins.set", "I:builtins.bytearray") or a.startswith("I:collections") for a in at)):
+                        bad.append((n, sorted(at)))
+            if bad:
+                n0, at0 = bad[0]
+                r2.fail(f"{f.short}:cached-mutable-result", f.loc(n0), f"{f.short} is memoised ({', '.join(f.decorators)[:40]}) and returns a mutable container ({norm(n0.value)[:50]}): every decode with the same arguments shares that one object, so an in-place annotation made while decoding one packet shows up in the payloads of later packets")
+            else:
+                r2.ok({"lru_cache_on": f.short, "returns": "immutable values only"})
+    if n_cached < 3:
+        raise AnalysisError(f"only {n_cached} memoised functions found on the decode path (expected pkt_addrs, id_to_address, re_compile_re_match ...)")
     out.append(r2)
 
     # ---- R3 ---------------------------------------------------------------------------
